@@ -6,12 +6,14 @@ package main
 
 import (
 	"fmt"
+	"math"
 	"sort"
 	"strconv"
 	"strings"
 	"time"
 
 	"github.com/elliotchance/gedcom/v39"
+	"github.com/elliotchance/gedcom/v39/q"
 )
 
 // element types of the typed generator
@@ -37,7 +39,8 @@ const (
 type c16Gen struct{ r *Rand }
 
 var c16consts = []string{`"John"`, `"Nan"`, `"nan"`, `"Inf"`, `"Male"`, `"Female"`, `"I1"`, `"I2"`, `"I3"`, `"F1"`, `"Smith"`, `"Doe"`, `"10"`, `"9"`,
-	`"1e1"`, `" 10 "`, `"smith"`, `"INDI"`, `"FAM"`, `"NAME"`, `""`, `"M"`, "10", "9", "1", "0", `"+10"`, `"1_0"`, `"-0"`, `"0.50"`, `".5"`, `"infinity"`, `"-inf"`, `"x"`, `"X "`}
+	`"1e1"`, `" 10 "`, `"smith"`, `"INDI"`, `"FAM"`, `"NAME"`, `""`, `"M"`, "10", "9", "1", "0", `"+10"`, `"1_0"`, `"-0"`, `"0.50"`, `".5"`, `"infinity"`, `"-inf"`, `"x"`, `"X "`,
+	`"010"`, `"007"`, `"08"`, `"0x10"`, `"0x1p4"`, `"0b11"`, `"1_000"`, `"1e3"`, `" 5 "`, `"5."`, "010", "007"}
 
 var c16ops = []string{"=", "!=", ">", ">=", "<", "<="}
 
@@ -475,6 +478,14 @@ func (l c16Law) queries() []string {
 			qs = append(qs, ps[0]+" "+op+" "+ps[1])
 		}
 		return qs
+	case "opref": // Param: left, right (raw strings) — the six operators on two literals
+		var qs []string
+		for _, op := range c16ops {
+			qs = append(qs, c16lit(ps[0])+" "+op+" "+c16lit(ps[1]))
+		}
+		return qs
+	case "onlyref": // Param: lhs statement, projection stage, operator, constant, expected canonical JSON
+		return []string{e + " | Only(" + ps[0] + " " + ps[2] + " " + c16lit(ps[3]) + ") | " + ps[1]}
 	case "shadow": // the first definition of a name wins; DocumentN cannot be redefined
 		return []string{e, "X is " + e + "; X is .Families | Length; X", "X is " + e + "; X is 1; Y is X; Y",
 			"Document1 | .Nodes | Length", "Document1 is .Families | First(1); Document1 | .Nodes | Length"}
@@ -629,6 +640,23 @@ func (l c16Law) verdict(o []c15Obs) (what, observed, expected string) {
 		if ge != (gt || eq) || le != (lt || eq) {
 			return ">= / <= are not > or = / < or =", obsS, "consistent"
 		}
+	case "opref":
+		ps := strings.Split(l.Param, c16sep)
+		for k, op := range c16ops {
+			want := "f"
+			if c16refCompare(ps[0], ps[1], op) {
+				want = "t"
+			}
+			if o[k].Top != "value" || o[k].JSON != want {
+				return "a comparison differs from the reference (numeric iff strconv.ParseFloat accepts both sides and neither is NaN, else lower-cased trimmed text)",
+					fmt.Sprintf("%q %s %q: %s %s", ps[0], op, ps[1], o[k].Top, o[k].JSON), want
+			}
+		}
+	case "onlyref":
+		ps := strings.Split(l.Param, c16sep)
+		if o[0].Top != "value" || o[0].JSON != ps[4] {
+			return "Only(x op c) over document values differs from filtering with the reference comparison", o[0].Top + " " + o[0].JSON, ps[4]
+		}
 	case "shadow":
 		for k := 1; k <= 2; k++ {
 			if line(k) != line(0) {
@@ -667,6 +695,79 @@ func (l c16Law) verdict(o []c15Obs) (what, observed, expected string) {
 		}
 	}
 	return "", "", ""
+}
+
+// c16lit writes an operand as a literal: digits-only operands sometimes as a bare number token.
+func c16lit(s string) string {
+	if strings.HasPrefix(s, "#") { // "#123": the bare number token 123
+		return s[1:]
+	}
+	return `"` + s + `"`
+}
+
+func c16litValue(s string) string { return strings.TrimPrefix(s, "#") }
+
+// c16refCompare is the reference semantics of the six operators on two rendered operands, written
+// against strconv / strings directly (not package q): numeric iff strconv.ParseFloat accepts both
+// sides as they are and neither is NaN; otherwise lower-cased, trimmed text in byte order.
+func c16refCompare(l, r, op string) bool {
+	l, r = c16litValue(l), c16litValue(r)
+	fl, el := strconv.ParseFloat(l, 64)
+	fr, er := strconv.ParseFloat(r, 64)
+	var lt, eq bool
+	if el == nil && er == nil && !math.IsNaN(fl) && !math.IsNaN(fr) {
+		lt, eq = fl < fr, fl == fr
+	} else {
+		a, b := strings.TrimSpace(strings.ToLower(l)), strings.TrimSpace(strings.ToLower(r))
+		lt, eq = a < b, a == b
+	}
+	switch op {
+	case "=":
+		return eq
+	case "!=":
+		return !eq
+	case "<":
+		return lt
+	case "<=":
+		return lt || eq
+	case ">":
+		return !lt && !eq
+	case ">=":
+		return !lt
+	}
+	return false
+}
+
+// numeric-looking operands: leading zeros (octal look-alikes), base prefixes, underscores,
+// exponents and decimals, signs and padding, Inf / NaN, hexadecimal floats, integers beyond 2^53
+// and 2^63, next to a few plain words.  "#…" = written as a bare number token.
+var c16numWords = []string{"007", "010", "012", "08", "09", "00", "0", "-010", "8", "10", "#010", "#10", "#8", "#007", "16", "3", "0x10", "0X1f", "0x1p4", "0x1p-2", "0x.8p1",
+	"0x1_0p0", "0x_1p4", "0x1p", "0b11", "0o17", "017", "1_000", "1000", "1__0", "_1", "1_", "1e3", "1E3", "1e1_0", "1.0", "1", ".5", "5.", "0.5", "0.25", "+5", "5", "-5", " 5 ", "5 ",
+	"Inf", "-inf", "+Infinity", "infinit", "NaN", "nan", "+nan", "1e400", "1e-400", "9007199254740993", "9007199254740992", "9223372036854775808", "9223372036854775807",
+	"123456789012345678", "1.5", "1,5", "", " ", "x", "I1", "0x", ".", "e3", "1e", "-", "--5", "0e0", "-0"}
+
+// c16numericDocs: individuals whose pointers and names are numeric-looking strings.
+func c16numericDocs() [][]*TNode {
+	var ptrs []string
+	for _, w := range c16numWords {
+		w = c16litValue(w)
+		if w == "" || strings.ContainsAny(w, " @,") {
+			continue
+		}
+		if _, ok := c15mkDoc([]*TNode{T("INDI", "", w)}); ok {
+			ptrs = append(ptrs, w)
+		}
+	}
+	var docs [][]*TNode
+	for d := 0; d*12 < len(ptrs); d++ {
+		var f []*TNode
+		for i := d * 12; i < len(ptrs) && i < d*12+12; i++ {
+			given := ptrs[(i*7+3)%len(ptrs)]
+			f = append(f, T("INDI", "", ptrs[i], T("NAME", given+" /"+ptrs[(i*5+1)%len(ptrs)]+"/", "")))
+		}
+		docs = append(docs, f)
+	}
+	return docs
 }
 
 // c16candidates: smaller variants of a query — one statement or one pipeline stage dropped
@@ -820,6 +921,13 @@ func init() {
 			}
 		}
 		uniDocs := len(pool) - uniStart
+		numStart := len(pool)
+		for _, f := range c16numericDocs() {
+			if d, ok := c15mkDoc(f); ok {
+				pool = append(pool, d)
+			}
+		}
+		numDocs := len(pool) - numStart
 		g := &c16Gen{r: r.Fork("grammar")}
 		var jobs []c15Job
 		type lawRun struct {
@@ -909,6 +1017,47 @@ func init() {
 				}
 			}
 		}
+		// numeric-looking operands: every pair as literals against the reference comparison, and the
+		// number grammar of the model against the operator functions themselves (qnum)
+		for _, a := range c16numWords {
+			for _, b := range c16numWords {
+				if strings.Contains(a+b, "\"") {
+					continue
+				}
+				addLaw(c16Law{"opref", "", a + c16sep + b, 0})
+				addLaw(c16Law{"operators", "", c16lit(a) + c16sep + c16lit(b), 0})
+				c.Count("source=operators-numeric")
+				for _, op := range q.Operators {
+					res, _ := op.Function(c16litValue(a), c16litValue(b))
+					c.Tie("qnum "+op.Name+" "+hexs(c16litValue(a))+" "+hexs(c16litValue(b)), bit(res))
+				}
+			}
+		}
+		// … and as document values: Only(x op c) over pointers / given names / surnames
+		rn := r.Fork("numeric-docs")
+		for d := numStart; d < numStart+numDocs; d++ {
+			doc, err := gedcom.NewDocumentFromString(pool[d].Text)
+			if err != nil {
+				continue
+			}
+			for i := c.N(140, 1500); i > 0; i-- {
+				k := rn.Intn(3)
+				lhs := []string{".Pointer", ".Name | .GivenName", ".Name | .Surname"}[k]
+				op, cst := rn.Pick(c16ops), rn.Pick(c16numWords)
+				var sb strings.Builder
+				sb.WriteString("[ ")
+				for _, ind := range doc.Individuals() {
+					v := []string{ind.Pointer(), ind.Name().GivenName(), ind.Name().Surname()}[k]
+					if c16refCompare(v, cst, op) {
+						sb.WriteString("s" + hexs(v) + " ")
+					}
+				}
+				sb.WriteString("]")
+				want := strings.ReplaceAll(sb.String(), "[ ]", "[  ]")
+				addLaw(c16Law{"onlyref", ".Individuals", strings.Join([]string{lhs, lhs, op, cst, want}, c16sep), d})
+				addLaw(c16Law{"threeway", ".Individuals", lhs + c16sep + c16lit(cst), d})
+			}
+		}
 		// 4. reference through the Go API
 		apiStart := len(jobs)
 		var apiQ []string
@@ -955,7 +1104,7 @@ func init() {
 				continue
 			}
 			l := lr.law
-			if shrunk[what] < 2 { // delta-debug the first failures of each kind
+			if shrunk[what] < 2 && l.Kind != "onlyref" && l.Kind != "opref" { // delta-debug the first failures of each kind
 				shrunk[what]++
 				if s := c16shrink(&pool, l); s.Expr != l.Expr || s.Doc != l.Doc {
 					var jb []c15Job
